@@ -46,7 +46,7 @@ TExclusive(g, in, p) == \A h \in TG : g # h /\ in[g] # 0 /\ p[g] # "put" /\ in[h
 TIsolationBreaches(hd, bf) == {<<g, x>> \in UNION {{g} \X hd[g] : g \in TG} : x.ref # 0 /\ bf[x.ref][1] # g}
 \* NoUnlockedWriteRead restricted to the pairs the event of x = <<goroutine, map>> can change (all other pairs were
 \* judged by earlier events): another goroutine is inside the same map's critical section and one of the two writes
-TNoUnlockedWriteRead(x, rd, wr) == \A y \in rd \cup wr : (y[2] = x[2] /\ y[1] # x[1]) => ~(x \in wr \/ y \in wr)
+TNoUnlockedWriteRead(x, rd, wr) == x \in rd \cup wr => \A y \in rd \cup wr : (y[2] = x[2] /\ y[1] # x[1]) => ~(x \in wr \/ y \in wr)
 
 Same == UNCHANGED <<prog, k, free, nextInst, val, lock, cached, miss, sched>>
 
